@@ -473,26 +473,28 @@ def run_history(job):
 DOCUMENTED_ORDER = ("DFXPReader", "MicroDVDReader", "WebVTTReader", "SAMIReader", "SRTReader", "SCCReader")
 
 
-def run_detect_batch(job):
-    """For every blob: what detect_format does, and what each documented sniffer does
-    on its own (fresh object each)."""
+def detect_one(s, R=None):
+    """What detect_format does with s, and what each documented sniffer does on its own (fresh object each)."""
     import pycaption
-    R, _ = _classes()
-    out = []
-    for s in job["blobs"]:
+    if R is None:
+        R, _ = _classes()
+    try:
+        r = pycaption.detect_format(s)
+        df = ["ret", None if r is None else getattr(r, "__name__", repr(r))]
+    except BaseException as e:
+        df = ["exc", type(e).__name__]
+    own = []
+    for name in DOCUMENTED_ORDER:
         try:
-            r = pycaption.detect_format(s)
-            df = ["ret", None if r is None else getattr(r, "__name__", repr(r))]
+            own.append(1 if R[name]().detect(s) else 0)
         except BaseException as e:
-            df = ["exc", type(e).__name__]
-        own = []
-        for name in DOCUMENTED_ORDER:
-            try:
-                own.append(1 if R[name]().detect(s) else 0)
-            except BaseException as e:
-                own.append("exc:" + type(e).__name__)
-        out.append([df, own])
-    return {"results": out}
+            own.append("exc:" + type(e).__name__)
+    return [df, own]
+
+
+def run_detect_batch(job):
+    R, _ = _classes()
+    return {"results": [detect_one(s, R) for s in job["blobs"]]}
 
 
 def run_pipeline_batch(job):
